@@ -46,6 +46,11 @@ MODEL = {"is_not_too_large": ("isNotTooLarge", False), "is_recent": ("isRecent",
          "is_pow": ("isPow", False), "is_not_hellthread": ("isNotHellthread", False), "is_service_event": ("isServiceEvent", False)}
 
 
+GLOBAL_SETS = {"ALLOWED_PUBKEYS": "allowed", "DENIED_PUBKEYS": "denied"}      # dynamic_lists' process-global sets
+# (source file, function) -> (model function, binders of the generated function, arguments of the model function)
+EXTRA = {("dynamic_lists.py", "is_pubkey_allowed"): ("isPubkeyAllowed", "(allowed denied : List (List Nat)) (e : Ev)", "allowed denied e")}
+
+
 def _is(node, dump):
     return ast.dump(node) == ast.dump(ast.parse(dump, mode="eval").body)
 
@@ -81,6 +86,8 @@ class Fn:
         if isinstance(n, ast.Call):
             if _is(n, "time()"):
                 return "now", INT
+            if _is(n, "bytes.fromhex(event.pubkey)"):
+                return "e.pubkey", BYTES
             if _is(n, "len(event.content)"):
                 return "e.contentLen", INT
             if _is(n, 'int.from_bytes(event.id_bytes, "big").bit_length()'):
@@ -105,6 +112,8 @@ class Fn:
                     if ta != INT:
                         raise Unavailable("membership of a non-integer in a tuple of integers")
                     inner = "(" + " || ".join("(%s == (%d : Int))" % (a, x.value) for x in right.elts) + ")"
+                elif isinstance(right, ast.Name) and right.id in GLOBAL_SETS:
+                    inner = "(%s.contains %s)" % (GLOBAL_SETS[right.id], a)
                 elif isinstance(right, ast.Attribute) and isinstance(right.value, ast.Name) and right.value.id == "config" \
                         and right.attr in CONFIG_LISTS:
                     field, optional = CONFIG_LISTS[right.attr]
@@ -130,6 +139,8 @@ class Fn:
                 return "(%s == %s)" % (a, b)
             if isinstance(op, ast.NotEq):
                 return "(%s != %s)" % (a, b)
+        if isinstance(n, ast.Name) and n.id in GLOBAL_SETS:            # truthiness of a set: it is not empty
+            return "(!%s.isEmpty)" % GLOBAL_SETS[n.id]
         # truthiness of an integer option (`config.hellthread_limit and …`)
         v, t = self.expr(n)
         if t == INT:
@@ -190,6 +201,19 @@ def extract(repo):
             unavailable.append((name, str(ex)))
         except Exception as ex:
             unavailable.append((name, "%s: %s" % (type(ex).__name__, ex)))
+    for (fname, name), (mname, binders, _) in EXTRA.items():
+        try:
+            t2 = ast.parse(open(os.path.join(repo, "nostr_relay", fname)).read())
+            f = {x.name: x for x in t2.body if isinstance(x, ast.FunctionDef)}.get(name)
+            if f is None:
+                raise Unavailable("the function is gone")
+            if [a.arg for a in f.args.args] != ["event", "config"]:
+                raise Unavailable("signature")
+            defs[name] = "def %s %s : Verdict := %s" % (mname, binders, Fn().block(f.body, "Verdict.ok"))
+        except Unavailable as ex:
+            unavailable.append((name, str(ex)))
+        except Exception as ex:
+            unavailable.append((name, "%s: %s" % (type(ex).__name__, ex)))
     return defs, unavailable
 
 
@@ -198,10 +222,17 @@ def lean_text(defs):
              "/-! generated from /repo/nostr_relay/validators.py by harness/lib/translate_validators.py — do not edit -/", "namespace XV"]
     lines += [defs[k] for k in sorted(defs)] + ["end XV", ""]
     thms = []
+    extra = {n: v for (_, n), v in EXTRA.items()}
     for name in sorted(defs):
+        thms.append("tie_" + name)
+        if name in extra:
+            mname, binders, args = extra[name]
+            lines += ["theorem tie_%s %s : XV.%s %s = NostrRelay.Admission.%s %s := by" % (name, binders, mname, args, mname, args),
+                      "  unfold XV.%s NostrRelay.Admission.%s" % (mname, mname),
+                      "  first | rfl | (repeat' split) <;> simp_all", ""]
+            continue
         mname, takes_now = MODEL[name]
         rhs = "NostrRelay.Admission.%s c %se" % (mname, "now " if takes_now else "")
-        thms.append("tie_" + name)
         lines += ["theorem tie_%s (c : Cfg) (now : Int) (e : Ev) : XV.%s c now e = %s := by" % (name, mname, rhs),
                   "  unfold XV.%s NostrRelay.Admission.%s" % (mname, mname),
                   "  first | rfl | (repeat' split) <;> simp_all <;> omega", ""]
